@@ -13,6 +13,7 @@ from engine import (Check, tlc_ok, validate_traces, pmap, run, tool_env, BIN,
                     scratch, MachineryError)
 import scriptgen as sg
 import regen
+from zoo import ZOO, zoo_files
 
 TRACE = 'SPECIFICATION TraceSpec\nCHECK_DEADLOCK FALSE\n'
 TRAILER = '''
@@ -81,7 +82,8 @@ def digest_files(bld):
 def run_project(arg):
     decls, backend, ctxs = arg
     files = sg.source_files(decls)
-    files['build.bfg'] = sg.bfg_text(decls) + TRAILER
+    files['build.bfg'] = sg.bfg_text(decls) + TRAILER + ZOO
+    files.update(zoo_files())
     for _n in ('sub1/u.c', 'sub2/v.c', 'sub3/w.c'):
         files[_n] = 'int %s;\n' % _n[5]
     files['man/p.1'] = '.TH p 1\n'
@@ -149,7 +151,7 @@ def main(argv):
             '%s in context %s: %s %s' % (info[0], json.dumps(ev['ctx']),
                                          files, ev.get('out', '')),
             {'decls': decls, 'backend': backend, 'ctx': ev['ctx'],
-             'build.bfg': sg.bfg_text(decls) + TRAILER})
+             'build.bfg': sg.bfg_text(decls) + TRAILER + ZOO})
     ck.sample({'contexts': ctxs[:3], 'digests': res[0][0]['primary']})
     ck.assumptions += ['process id and time vary naturally between runs',
                        'stub compilers; packages/mopack not exercised']
